@@ -1091,6 +1091,7 @@ func (s *Server) RemoteSync(
 		QueueTick: s.Source.QueueTick(),
 	}
 	s.log("RemoteSync: [%v]", resp.Time)
+	verifPoint(s, "srv:sync")
 
 	return nil
 }
